@@ -108,6 +108,8 @@ func dumpIndexes(st storage.Store, gname string) {
 	stats["index_dumps"]++
 }
 
+var spellRng = rand.New(rand.NewSource(4242))
+
 func must(err error) {
 	if err != nil {
 		fmt.Fprintln(os.Stderr, "storedrv:", err)
@@ -132,10 +134,13 @@ func apply(st storage.Store, names []string, op, g string, b []int) bool {
 		if err != nil {
 			must(fmt.Errorf("harness: %s on missing graph %s", op, g))
 		}
+		// every occurrence of a triple in a batch is written in the stored or in another spelling of its anchors
+		// (same instants, other zone): the same triple for the store (seeded choice, deterministic per run)
+		ts := storeops.BatchSpelled(u, b, func(int) bool { return spellRng.Intn(3) == 0 })
 		if op == "Add" {
-			ok = gr.AddTriples(ctx, storeops.Batch(u, b)) == nil
+			ok = gr.AddTriples(ctx, ts) == nil
 		} else {
-			ok = gr.RemoveTriples(ctx, storeops.Batch(u, b)) == nil
+			ok = gr.RemoveTriples(ctx, ts) == nil
 		}
 	default:
 		must(fmt.Errorf("unknown op %q", op))
